@@ -60,7 +60,18 @@ def determinism(args, seed):
         if a is None or b is None or c is None:
             D.log("HARNESS-ERROR: a worker failed in the determinism self-test of %s" % prop)
             return 2
-        diffs = [r for r in a if r in b and a[r] != b[r]] + [r for r in c if r in a and a[r] != c[r]]
+        # the same run three times in a row in one process (what a minimiser does)
+        rep_dir = base + "-rep"
+        os.makedirs(rep_dir, exist_ok=True)
+        rep_out = os.path.join(rep_dir, "rep.jsonl")
+        subprocess.run([binary, "run", "--prop", prop, "--seed", str(seed), "--from", "0", "--to", "24", "--repeat", "3", "--out", rep_out, "--samples", "0"],
+                       env=D.env_offline({"LD_PRELOAD": D.SHIM}), stdout=subprocess.DEVNULL, stderr=subprocess.DEVNULL)
+        reps = {}
+        for line in open(rep_out):
+            r = json.loads(line)
+            reps.setdefault(r["run"], set()).add(r["digest"])
+        rep_bad = [r for r, ds in reps.items() if len(ds) != 1 or (r in a and a[r][0] not in ds)]
+        diffs = [r for r in a if r in b and a[r] != b[r]] + [r for r in c if r in a and a[r] != c[r]] + rep_bad
         total_compared += len(a) + len(c)
         D.log("determinism %s: %d runs x (16 workers, 5 workers, other harness hash seed) + %d runs x 1 worker: %d divergent (%.1fs)" % (prop, len(a), len(c), len(diffs), time.time() - t0))
         for r in diffs[:5]:
